@@ -189,3 +189,17 @@ PROPS["C16"] = dict(
                                       "searcher, pos and prestate is decided by the correspondence on histories"],
     trusted=SUB_TRUSTED + ["CowBytes, Clone derives and lifetimes are not modelled"],
 )
+
+PROPS["C17"] = dict(
+    id="C17", coq_files=MEM_PROOF_FILES + ["Mem/IterProofs.v"] + ALL_SUB_PROOFS + ["Sub/FindIterProofs.v", "Sub/CritFact.v", "Sub/MaxSuffixProofs.v", "Sub/TwoWayTier2.v", "Props/C17.v"],
+    gen=gens.gen_c17, oracle=gens.oracle_c17, nontrivial=gens.nontrivial_c17, shrink_fields=["h"],
+    builds=["debug", "release", "plain-release+alloconly", "plain-release+nofeatures"], compare_trace=False, canon=gens.canon_c17,
+    rule="allocation probe (counting #[global_allocator], armed on the calling thread around exactly one API call with pre-built inputs): "
+         "memchr/memrchr 1-3, memchr iterators, memmem::find/rfind/find_iter/rfind_iter, Finder/FinderRev construction from a borrowed needle + "
+         "find + full iteration, owned finders searching, Two-Way/Rabin-Karp/packed-pair blocks, Shift-Or find: must be 0; into_owned of a "
+         "borrowed finder and shiftor::Finder::new: at most 1; needles of 0..100 bytes covering every strategy of the meta searcher x haystacks "
+         "incl. prefilter-exhausting ones; default (std), alloc-only and no-default-features builds; the count is compared with the number of "
+         "Alloc events of the model; non-trivial = haystack >= 4 bytes",
+    assumptions=SUB_ASSUME + ["the model contains an Alloc event only where one was written by hand (shiftor::Finder::new); the property is decided by the probe"],
+    trusted=SUB_TRUSTED + ["the counting allocator sees every heap allocation of the calling thread (GlobalAlloc alloc/realloc/alloc_zeroed)"],
+)
